@@ -381,8 +381,9 @@ def kind_key(d):
     dt = d["dt"]
     e = dt["e"]
     ek = "any" if e["k"] == "any" else ("a%d" % e["tag"] + ("r" if e.get("hi") is not None else "")) if e["k"] == "atomic" else "cons"
-    return (dt["k"], ek if dt["k"] == "scalar" else ("atomic" if e["k"] != "cons" else "cons"),
-            dt.get("fixed") is not None)
+    if dt["k"] != "scalar":
+        ek = "cons" if e["k"] == "cons" else "atomic-r" if e.get("hi") is not None else "atomic"
+    return (dt["k"], ek, dt.get("fixed") is not None)
 
 
 def writable_selection(E, otname, per_kind=2):
@@ -414,7 +415,8 @@ def get_class(E, kind, otname, own=()):
         bo.register_object_type(cls, vendor_id=999)
     elif kind == "nw":
         base = bo.registered_object_types[(otname, 0)]
-        cls = type(base.__name__ + "NW", (lo.WriteableObjectNameMixIn, base), {"properties": []})
+        cls = type(base.__name__ + "NW", (lo.WriteableObjectNameMixIn, lo.CurrentPropertyListMixIn, base),
+                   {"properties": []})
         bo.register_object_type(cls, vendor_id=999)
     elif kind == "cmd":
         cls = getattr(lo, otname)          # here `otname` is the class name
@@ -705,6 +707,9 @@ def idx_choices(n):
 
 def cur_len(inst, name):
     from bacpypes.constructeddata import Array
+    p = inst._properties.get(name)
+    if p is not None and type(p).__name__ == "CurrentPropertyList":
+        return len([k for k, v in inst._values.items() if v is not None and k not in PROTECTED])
     v = inst._values.get(name)
     if isinstance(v, Array) and isinstance(v.value, list):
         return len(v.value) - 1
@@ -776,6 +781,11 @@ def gen_write(E, fx, rng):
             klass = Unsigned if idx == 0 else dt.subtype
         else:
             klass = dt
+    elif r < 0.74 and limited_unsigned(p.datatype) is not None:
+        # right tag, value beyond the limit of the Unsigned subclass (Unsigned8, Unsigned16, ...)
+        tags = over_limit_tags(E, p.datatype, idx, rng)
+        prio = None
+        return {"op": "wp", "oid": oid, "pid": pid, "idx": idx, "tags": tags, "prio": prio, "vclass": "range"}
     elif r < 0.78:
         klass, vclass = Null, "null"
     elif r < 0.86 and issubclass(p.datatype, (Array, List)):
@@ -807,6 +817,32 @@ def gen_write(E, fx, rng):
     return op
 
 
+def limited_unsigned(dt):
+    """the Unsigned subclass with a high limit that the datatype (or its element type) is, or None"""
+    from bacpypes.primitivedata import Unsigned
+    from bacpypes.constructeddata import Array, List
+    k = dt.subtype if issubclass(dt, (Array, List)) else dt
+    if isinstance(k, type) and issubclass(k, Unsigned) and k._high_limit is not None:
+        return k
+    return None
+
+
+def over_limit_tags(E, dt, idx, rng):
+    from bacpypes.primitivedata import Unsigned
+    from bacpypes.constructeddata import Array, List
+    k = limited_unsigned(dt)
+    big = Unsigned(k._high_limit + rng.choice([1, 1, 2, 1000]))
+    if issubclass(dt, (Array, List)) and idx is None:
+        n = getattr(dt, "fixed_length", None) or rng.choice([1, 2, 3])
+        vals = [Unsigned(rng.randrange(k._low_limit, k._high_limit + 1)) for _ in range(n)]
+        vals[rng.randrange(n)] = big
+        a = any_of_value(vals[0])
+        for v in vals[1:]:
+            a.cast_in(v)
+        return jt(a.tagList)
+    return jt(any_of_value(big).tagList)
+
+
 def any_of_value(v):
     from bacpypes.constructeddata import Any
     a = Any()
@@ -834,10 +870,65 @@ def gen_rpm(E, fx, rng):
     return {"op": "rpm", "specs": specs}
 
 
+def directed_ops(E, fx, rng, limit=70):
+    """boundary grid over the fixture: every present array property (stored or
+    computed) is read at 0, 1, n, n+1; every writable property of a limited
+    Unsigned datatype is written at and beyond its limit; every commandable
+    object is commanded at priorities 1, 16, none, 0, 17"""
+    from bacpypes.constructeddata import Array
+    from bacpypes.primitivedata import Unsigned
+    ops = []
+    for spec, inst in fx.all_objects():
+        t, i = inst._values["objectIdentifier"]
+        oid = [E.otnum[t], i]
+        for name, p in inst._properties.items():
+            pid = E.pidnum[name]
+            if issubclass(p.datatype, Array) and (inst._values.get(name) is not None or name == "propertyList"):
+                n = cur_len(inst, name)
+                for idx in sorted({0, 1, n, n + 1}):
+                    ops.append({"op": "rp", "oid": oid, "pid": pid, "idx": idx})
+                ops.append({"op": "rpm", "specs": [{"oid": oid, "refs": [{"pid": pid, "idx": n}, {"pid": pid, "idx": n + 1},
+                                                                          {"pid": pid, "idx": 0}]}]})
+            k = limited_unsigned(p.datatype)
+            if k is not None and p.mutable and inst._values.get(name) is not None:
+                for vclass, make in (("typed", lambda: gen_tags(E, p.datatype, rng)),
+                                     ("range", lambda: over_limit_tags(E, p.datatype, None, rng))):
+                    tags = make()
+                    if tags is not None:
+                        ops.append({"op": "wp", "oid": oid, "pid": pid, "idx": None, "tags": tags, "prio": None,
+                                    "vclass": vclass})
+        if getattr(type(inst), "_pv_choice", None) is not None:
+            p = inst._properties["presentValue"]
+            for prio in (1, 16, None, 0, 17):
+                tags = None
+                for _ in range(8):
+                    tags = gen_tags(E, p.datatype, rng)
+                    probe = {"tags": tags}
+                    if tags is not None and cmd_value_ok(p, tags):
+                        break
+                    tags = None
+                if tags is not None:
+                    ops.append({"op": "wp", "oid": oid, "pid": E.pidnum["presentValue"], "idx": None, "tags": tags,
+                                "prio": prio, "vclass": "typed"})
+    rng.shuffle(ops)
+    return ops[:limit]
+
+
+def cmd_value_ok(p, tags):
+    """clauses owned by C17: no out-of-table enumerated command"""
+    from bacpypes.primitivedata import Enumerated
+    if issubclass(p.datatype, Enumerated) and tags and tags[0][1] == 9:
+        v = int.from_bytes(bytes.fromhex(tags[0][3]) or b"\0", "big")
+        return v in p.datatype._xlate_table
+    return True
+
+
 def gen_ops(E, fx, rng, n):
     """the ops are generated while the real device runs (index choices look at
     current lengths); the result is an explicit list that replays without an rng"""
     ops = []
+    for op in directed_ops(E, fx, rng):
+        yield op
     for _ in range(n):
         r = rng.random()
         if r < 0.35:
@@ -906,8 +997,6 @@ def facts(E, fx, op):
     f["array"] = issubclass(p.datatype, Array)
     f["present"] = obj._values.get(p.identifier) is not None or f["custom"] in ("propList", "computed")
     f["len"] = cur_len(obj, p.identifier)
-    if f["custom"] == "propList":
-        f["len"] = len([k for k, v in obj._values.items() if v is not None and k not in PROTECTED])
     f["is_cmd"] = getattr(type(obj), "_pv_choice", None) is not None
     return f
 
@@ -934,6 +1023,27 @@ def oracle_read(ctx, E, fx, case, op, f, rep):
     if not f["present"]:
         if not is_err(rep, "property", "unknownProperty"):
             bad("error-matches", "absent property answered %r" % (rep,))
+        return
+    if f["custom"] == "propList":
+        # CurrentPropertyList, from the object's own value dictionary: the identifiers
+        # with a value (minus the four the standard excludes), sorted by name
+        from bacpypes.basetypes import PropertyIdentifier
+        from bacpypes.primitivedata import Unsigned
+        names = sorted(k for k, v in f["obj"]._values.items() if v is not None and k not in PROTECTED)
+        enc = [hex_of_any(any_of_value(PropertyIdentifier(k))) for k in names]
+        if idx is None:
+            want = {"r": "ack", "hex": "".join(enc)}
+        elif idx == 0:
+            want = {"r": "ack", "hex": hex_of_any(any_of_value(Unsigned(len(names))))}
+        elif idx <= len(names):
+            want = {"r": "ack", "hex": enc[idx - 1]}
+        else:
+            want = None
+        if want is None:
+            if not is_err(rep, "property", "invalidArrayIndex"):
+                bad("array-index", "propertyList[%d] of %d answered %r" % (idx, len(names), rep))
+        elif rep.get("r") != "ack" or rep.get("hex") != want["hex"]:
+            bad("array-index", "propertyList%s answered %r, expected %s" % ("" if idx is None else "[%d]" % idx, rep, want["hex"]))
         return
     if f["custom"] != "std" and f["custom"] != "objId" and f["custom"] != "wrName":
         return
@@ -1003,6 +1113,17 @@ def oracle_write(ctx, E, fx, case, op, f, rep, before, after, wire):
     if op.get("vclass") in ("null",) and not f["is_cmd"] and acked:
         bad("typed", "Null written to a non-commandable property was acknowledged")
         return
+    if op.get("vclass") == "range" and acked:
+        bad("typed", "a value beyond the limit of the property's Unsigned datatype was acknowledged")
+        return
+    if f["is_cmd"] and p.identifier == "presentValue" and op.get("vclass") in ("typed", "null"):
+        valid_prio = op["prio"] is None or 1 <= op["prio"] <= 16
+        if valid_prio and not acked:
+            bad("priority", "a command at priority %r was refused with %r" % (op["prio"], rep))
+            return
+        if not valid_prio and acked:
+            bad("priority", "a command at priority %r was acknowledged" % (op["prio"],))
+            return
     if not acked:
         return
     # write_then_read (over the wire)
@@ -1294,7 +1415,7 @@ def run(ctx):
 
 def search(ctx):
     """focused failing-input search: more and longer scenarios (the oracle runs inline)"""
-    specs = [("s%d" % i, 3, 8, 200) for i in range(16)]
+    specs = [("s%d" % i, 2, 8, 120) for i in range(16)]
     sub = core.Ctx(ctx.prop, ctx.tier, ctx.seed + 7919)
     sub.model_ok = False
     core.run_shards(sub, "harness.c15", "shard", specs)
